@@ -731,6 +731,16 @@ func runC20(r *evid.Run) {
 				}
 				return w.Bytes(), ends
 			}
+			// (a SendMsg that fails or panics on these packets is a verdict, not a crash of the check)
+			safeFrameAll := func(ps []*types.Packet) (wire []byte, ends []int, msg string) {
+				defer func() {
+					if r := recover(); r != nil {
+						msg = fmt.Sprintf("panic: %v", r)
+					}
+				}()
+				wire, ends = frameAll(ps)
+				return
+			}
 			cnt := int64(0)
 			// payloads that are themselves the beginning of a packet whose data field runs d bytes past the
 			// payload: read from the wrong offset, such a frame decodes - into a packet nobody sent
@@ -742,7 +752,11 @@ func runC20(r *evid.Run) {
 			}
 			nested = append(nested, &types.Packet{Type: types.PACKET_FIN})
 			for _, ps := range [][]*types.Packet{small, big, nested} {
-				wire, ends := frameAll(ps)
+				wire, ends, fmsg := safeFrameAll(ps)
+				if fmsg != "" {
+					r.Violate("framing:"+firstWord(fmsg), fmt.Sprintf("writing %d packets through a protoStream: %s", len(ps), fmsg), c20Case{Kind: "framing", Pkts: encAll(ps)})
+					continue
+				}
 				cuts := map[int]bool{}
 				for c := 0; c <= len(wire); c++ {
 					near := len(wire) < 200
